@@ -63,7 +63,10 @@ type Ev struct {
 }
 
 type History struct {
-	ID        int    `json:"id"`
+	ID        int          `json:"id"`
+	Kind      string       `json:"kind,omitempty"` // "" dispatcher with scripted workers | worker | system
+	WEvents   []WEv        `json:"wevents,omitempty"`
+	System    *sysScenario `json:"system,omitempty"`
 	Name      string `json:"name,omitempty"`
 	Malformed bool   `json:"malformed,omitempty"`
 	Scripted  bool   `json:"scripted,omitempty"` // replay the events as given
@@ -908,14 +911,15 @@ func main() {
 	var hs []History
 	if a.Replay != "" {
 		var h History
-		c.ReadJSON(a.Replay, &h)
 		// a replay file written by the orchestrator wraps the history
-		if len(h.Events) == 0 {
-			var wrap struct {
-				History History `json:"history"`
-			}
-			c.ReadJSON(a.Replay, &wrap)
-			h = wrap.History
+		var wrap struct {
+			History *History `json:"history"`
+		}
+		c.ReadJSON(a.Replay, &wrap)
+		if wrap.History != nil {
+			h = *wrap.History
+		} else {
+			c.ReadJSON(a.Replay, &h)
 		}
 		h.Scripted = true
 		h.Failure, h.Tainted = "", ""
@@ -937,6 +941,22 @@ func main() {
 			}
 			hs = append(hs, h)
 		}
+		// real worker.Run: worker-level histories and system scenarios
+		nw, nsys := 60, 8
+		if a.Tier == "thorough" {
+			nw, nsys = 600, 40
+		}
+		for i, evs := range workerCorpus() {
+			hs = append(hs, History{ID: 100000 + i, Kind: "worker", WEvents: evs})
+		}
+		for i := 0; i < nw; i++ {
+			r := c.Rng(a.Seed, 100100+i)
+			hs = append(hs, History{ID: 100100 + i, Kind: "worker", WEvents: genWorkerHistory(r, 4+r.Intn(8))})
+		}
+		for i := 0; i < nsys; i++ {
+			r := c.Rng(a.Seed, 200000+i)
+			hs = append(hs, History{ID: 200000 + i, Kind: "system", System: genSystem(r, i)})
+		}
 	}
 
 	var wg sync.WaitGroup
@@ -947,7 +967,16 @@ func main() {
 		go func(h *History) {
 			defer wg.Done()
 			defer func() { <-sem }()
-			runHistory(h, a.Seed)
+			switch h.Kind {
+			case "worker":
+				runWorkerHistory(h)
+			case "system":
+				h.Failure = ""
+				h.System.Served, h.System.Verdict = nil, ""
+				runSystem(h)
+			default:
+				runHistory(h, a.Seed)
+			}
 		}(&hs[i])
 	}
 	wg.Wait()
@@ -979,6 +1008,7 @@ func main() {
 		shard = nil
 	}
 	nev := 0
+	var wcases []string
 	for i := range hs {
 		h := &hs[i]
 		path := filepath.Join(a.Out, fmt.Sprintf("hist-%d.json", h.ID))
@@ -986,6 +1016,27 @@ func main() {
 		rep.Cases[fmt.Sprint(h.ID)] = path
 		if h.Tainted != "" {
 			rep.Histogram["dropped_timing"]++
+			continue
+		}
+		if h.Kind == "worker" {
+			wcases = append(wcases, wcaseTerm(h))
+			rep.Evaluations++
+			for j := range h.WEvents {
+				if !h.WEvents[j].Skipped {
+					rep.Histogram["wev:"+h.WEvents[j].K]++
+					if h.WEvents[j].HasRes {
+						rep.Histogram["wresult:"+h.WEvents[j].ResE]++
+					}
+				}
+			}
+			continue
+		}
+		if h.Kind == "system" {
+			rep.Evaluations++
+			rep.Histogram["system:"+h.System.Kind]++
+			if h.Failure != "" {
+				rep.ImplFailures = append(rep.ImplFailures, c.ImplFailure{Case: fmt.Sprint(h.ID), Step: h.FailStep, What: h.Failure})
+			}
 			continue
 		}
 		if h.Failure != "" {
@@ -1026,6 +1077,11 @@ func main() {
 		}
 	}
 	flush(true)
+	if len(wcases) > 0 {
+		c.WriteFile(filepath.Join(a.Out, "cases_w.v"), header+
+			"Definition wcases : list (Z * list (wev * wobs)) := [\n"+strings.Join(wcases, ";\n")+"].\n"+
+			"Definition R := Eval vm_compute in (run_wcases wcases).\nSet Printing Width 1000000.\nSet Printing Depth 1000000.\nPrint R.\n")
+	}
 	rep.Histogram["events"] = nev
 	rep.Histogram["distinct_signatures"] = len(sigs)
 	rep.DistinctNontrivial = len(nontrivial)
